@@ -365,4 +365,53 @@ def runOrder (g : Key → Option Task) : List Key → Store → Option Store
     let st' ← runTask g st k
     runOrder g r st'
 
+/-! ### notions used by the theorem statements -/
+
+/-- the spans tile `[a, b)` contiguously, in order (what `VariableSizedTiles` / `Tiles` produce) -/
+def Chain : Int → List Span → Int → Prop
+  | a, [], b => a = b
+  | a, s :: r, b => s.1 = a ∧ s.1 ≤ s.2 ∧ Chain s.2 r b
+
+/-- a well-formed array of shape `h × w`: defined exactly on `[0,h) × [0,w)` -/
+def WF (img : Img) (h w : Int) : Prop :=
+  ∀ p, (img p).isSome ↔ (0 ≤ p.1 ∧ p.1 < h ∧ 0 ≤ p.2 ∧ p.2 < w)
+
+/-- pixel coordinate `p` lies in tile `i` of the tiling -/
+def InTile (t : List Span) (i : Nat) (p : Int) : Prop :=
+  ∃ s, t[i]? = some s ∧ s.1 ≤ p ∧ p < s.2
+
+/-- every dependency names an existing source block -/
+def DepsValid (c : Cfg) : Prop :=
+  ∀ idx, ∀ i ∈ lookupDeps c.deps idx, i.1 < c.sy.length ∧ i.2 < c.sx.length
+
+/-- Dependency completeness (the statement of C12's `linear_deps_complete` at pixel level):
+whenever a pixel of destination tile `(iy, ix)` samples source pixel `s`, the source tile holding
+`s` is listed for `(iy, ix)`. -/
+def deps_complete (c : Cfg) : Prop :=
+  ∀ (iy ix : Nat) (d : Int × Int), InTile c.dy iy d.1 → InTile c.dx ix d.2 →
+    ∀ s, samplePix (c.S.inv * c.D) c.srcH c.srcW d = some s →
+      ∃ i ∈ lookupDeps c.deps (iy, ix), InTile c.sy i.1 s.1 ∧ InTile c.sx i.2 s.2
+
+/-- nodata values of a boolean raster are booleans (`dtype.type(nodata)`) -/
+def NodataOk (k : DKind) (nd : Option Val) : Prop :=
+  k = .bool → ∀ v, nd = some v → v = .num 0 ∨ v = .num 1
+
+/-- what each key of the graph denotes, independent of any execution -/
+def denote (c : Cfg) (G : Gdal) (src : Img) : Key → Option Img
+  | .src i => srcBlock src c.sy c.sx i
+  | .dst i => dstBlock c G src i
+
+/-- `k` may run once the keys in `done` have run: it is a key of the graph and its dependencies
+are done -/
+def Ready (c : Cfg) (done : List Key) : Key → Prop
+  | .src i => i.1 < c.sy.length ∧ i.2 < c.sx.length
+  | .dst i => i.1 < c.dy.length ∧ i.2 < c.dx.length ∧
+      ∀ j ∈ lookupDeps c.deps i, Key.src j ∈ done
+
+/-- a schedule in which every task runs after its dependencies (any topological order of any
+subset of the graph closed under dependencies; repetitions allowed) -/
+def ValidOrder (c : Cfg) : List Key → List Key → Prop
+  | _, [] => True
+  | done, k :: r => Ready c done k ∧ ValidOrder c (k :: done) r
+
 end OdcGeo.C13
